@@ -15,7 +15,7 @@ namespace Facto
 inductive Arg
   | int (k : I32)
   | node (i : Nat)
-  deriving Repr, Inhabited, BEq
+  deriving Repr, Inhabited, DecidableEq
 
 inductive CNode
   /-- a declared constant signal: a free input of the program (its literal value is `v`) -/
@@ -48,7 +48,7 @@ inductive CNode
   | bgate (op : CmpOp) (a k : Arg) (b : Nat)
   /-- `entity.output`: a free bundle input -/
   | entOut (e : Nat)
-  deriving Repr, Inhabited
+  deriving Repr, Inhabited, DecidableEq
 
 /-- the signal type of a scalar node (`none` for bundle nodes) -/
 def CNode.ty? : CNode → Option Sig
